@@ -65,6 +65,10 @@ var c06Templates = []string{
 	`(tag ~> $split("-"))[1] & a.$substring(1, 2)`,
 	`$lookup(o, "k") + n.$abs()`,
 	`items[k = "a"].v ~> $string() ~> $pad(-4, "0")`,
+	// the random source is process-wide state too; these use it with a deterministic result
+	`($r := $random(); $r >= 0 and $r < 1) ? tag : "random out of range"`,
+	`$string($sort($shuffle(arr))) & tag`,
+	`$sum($shuffle($append(arr, [n, n, n]))) + $count($shuffle(items))`,
 }
 
 func c06Input(i int, extra string) string {
@@ -298,7 +302,7 @@ func init() {
 
 // TestC06_Workloads generates and runs concurrent workloads.
 func TestC06_Workloads(t *testing.T) {
-	rec := begin(t, "C06", "rapid: workloads of 2..32 goroutines x {one shared Expr, own Expr per goroutine, rotated program order, package-level Register* + Compile + Expr-level registration running alongside} x 3..7 programs (26 templates over context-defaulting built-ins, chains, partials, lambdas, transforms, regexes, sorts, formatting; plus deterministic type-chaotic programs) x goroutine-specific inputs whose correct results differ x GOMAXPROCS in {2,4,16}; -race build; non-trivial = a (program, input) pair with a built-in call executed while >= 1 other goroutine evaluates; distinct by pair within a workload")
+	rec := begin(t, "C06", "rapid: workloads of 2..32 goroutines x {one shared Expr, own Expr per goroutine, rotated program order, package-level Register* + Compile + Expr-level registration running alongside} x 3..7 programs (29 templates over context-defaulting built-ins, chains, partials, lambdas, transforms, regexes, sorts, formatting, the process-wide random source; plus deterministic type-chaotic programs) x goroutine-specific inputs whose correct results differ x GOMAXPROCS in {2,4,16}; -race build; non-trivial = a (program, input) pair with a built-in call executed while >= 1 other goroutine evaluates; distinct by pair within a workload")
 	defer finish(t, rec)
 	if !raceEnabled {
 		rec.Note("race_detector", "OFF: this binary was not built with -race; only the isolation oracle ran")
